@@ -47,6 +47,9 @@ def gen_cases(tier, seed):
         c["kind"] = "nn"
         c["gother"] = bool(c["n"] % 2)
         c["mixed"] = bool(c["n"] % 5 == 4)
+        c["storage"] = ["plain", "strided", "plain", "transposed"][c["n"] % 4]
+        if c["op"] in ("sigmoid", "tanh", "selu", "softmax", "log_softmax", "bce_with_logits", "cross_entropy") and c["n"] % 3 == 1:
+            c["a"] = dict(c["a"], vclass="huge")
         if c["op"] == "batch_norm" and c["n"] % 3 == 0:
             c["a"] = dict(c["a"], vclass="offset")          # |mean| >> std: float32 must still agree with float64 to single precision
         cases.append(c)
@@ -309,7 +312,8 @@ def run_stateful(ns, mon, case):
         lin = nn.Linear(3, 2)
         for p_ in lin.parameters():
             p_.data = p_.data.astype(dt)
-        opt = ns.optim.SGD(lin.parameters(), lr=0.1, momentum=0.5)
+        opt = [ns.optim.SGD(lin.parameters(), lr=0.1, momentum=0.5), ns.optim.Adam(lin.parameters(), lr=0.01),
+               ns.optim.AdamW(lin.parameters(), lr=0.01, weight_decay=0.1)][case["seed"] % 3]
         for it in range(2):
             if path == "optimizer":
                 opt.zero_grad()
@@ -326,6 +330,12 @@ def run_stateful(ns, mon, case):
                     viol.append(V(f"reset-path:{path}:grad-dtype", f"after zeroing via the {path} and a backward, a {dt} parameter has grad dtype "
                                   f"{None if p_._grad is None else p_._grad.dtype} / data dtype {p_.data.dtype}", iteration=it))
             opt.step()
+            for p_ in lin.parameters():
+                if p_.data.dtype != dt:
+                    viol.append(V(f"optimizer-step:{type(opt).__name__}:parameter-dtype", f"a {dt} parameter became {p_.data.dtype} after {type(opt).__name__}.step()"))
+            y_ = lin(T(rng.standard_normal((2, 3)).astype(dt)))
+            if y_.dtype != dt:
+                viol.append(V(f"optimizer-step:{type(opt).__name__}:layer-output-dtype", f"a {dt} layer returns {y_.dtype} after an optimizer step"))
     d = nn.Dropout(0.3); d.train()
     yd = d(T(rng.standard_normal(shp).astype(dt)))
     if yd.dtype != dt:
